@@ -49,6 +49,9 @@ def queries(tier):
         seen.add(w)
         qs.append(Query("resp-" + skel.tag(w), "c07/respond.c", tus=TUS, env=ENV, defs={"SKEL": w}, cdefs=["-DENV_MSG_CAP=48"], unwind=12,
                         unwind_rules=KIT_RULES, timeout=300, params={"protocol": "respondent0", "skeleton": w}))
+    for w in RESP_CUR + ["A(0) Q(0,0) R(0,1) S(1,1) S(2,1) Z", "A(0) G(0,1) S(0,1) S(1,1) Z"]:
+        qs.append(Query("respctx-" + skel.tag(w), "c07/respond.c", tus=TUS, env=ENV, defs={"SKEL": w, "XCTX": 1}, cdefs=["-DENV_MSG_CAP=48"], unwind=12,
+                        unwind_rules=KIT_RULES, timeout=300, params={"protocol": "respondent0", "context": "explicit", "skeleton": w}))
     return qs
 
 MANIFEST = {
